@@ -15,18 +15,37 @@ func init() {
 				"PV buffer algebra only: for each ply 0..63 (64 instances), ARBITRARY child line length and moves, arbitrary neighbouring content: rows disjoint and in bounds, insert copies exactly the child's line behind the move, setNull empties the row",
 			},
 			Outside: []string{
-				"legality of the moves stored in the buffer (follows from C01/C06: a move is inserted only after it was made and found legal) and the adoption logic of iterativeDeepen are not encoded by this check",
+				"legality of the moves stored in the buffer (a move is inserted only after it was made and found legal: C01/C06) and the adoption logic of iterativeDeepen (which line is printed and which move returned) are not encoded by the registered check",
 			},
 		}
 		for ply := int64(0); ply < 64; ply++ {
 			s.Instances = append(s.Instances, run.Instance{Pkg: "search", Func: "VpH_C07_pv", Params: map[string]int64{"ply": ply}})
 		}
+		k := 2
+		if tier == "thorough" {
+			k = 3
+		}
+		setup := wrapTimeStubs(func(x *vexec.Exec, w *run.World) {
+			bT := w.Pkgs[run.ModPath+"/board"].Type("Board").Type()
+			sT := w.Pkgs[run.ModPath+"/search"].Type("Search").Type()
+			a := &absSearch{w: w, boardT: bT, searchT: sT, posIx: fieldIx(bT, "fullMoves"), stmIx: fieldIx(bT, "STM"), abortIx: fieldIx(sT, "aborted"), pvIx: fieldIx(sT, "pv"), writePV: true}
+			a.install(x, true, false, func(string, *sym.Term, *sym.Term) {})
+			a.observePrints(x)
+		})
+		if tier == "diagnostic" {
+			// adoption logic against contracts: did not close (monotonicity query unknown after 300 s, two obligations with
+			// counterexamples against the contracts that no real search confirms) - kept for further work, not registered
+			s.Instances = append(s.Instances, run.Instance{Pkg: "search", Func: "VpH_C07_deepen",
+				Opt: run.Options{Abstract: true, Setup: setup, LoopBound: k, UnwindMode: "assume", PanicMode: "ignore", TimeoutMs: 300000}})
+		}
+		_ = append(s.Bounds, "adoption logic: the real iterativeDeepen for up to 2 (quick) / 3 (thorough) iterations and aspiration retries each, alphaBeta replaced by its contract (arbitrary score, arbitrary line of 0..3 moves in row 0, node counter does not decrease, may abort), info lines observed at fmt.Fprintf")
 		return s
 	}
 	Reg["C08"] = func(tier string, seed int64) *Spec {
 		s := &Spec{
-			Prop: "C08",
-			Pkgs: []string{"search"},
+			Prop:    "C08",
+			Pkgs:    []string{"search"},
+			Confirm: &ConfirmRun{"search", "VpV_C08_sweep", "VpV_C08_case"},
 			Bounds: []string{
 				"node budget: one incrementNodes/abort step from ANY counter value within ANY non-negative 64-bit budget (inductive: the counter starts at 0 <= budget), and with no budget",
 			},
@@ -35,12 +54,19 @@ func init() {
 			},
 		}
 		s.Instances = append(s.Instances, run.Instance{Pkg: "search", Func: "VpH_C08_budget"})
+		if tier == "diagnostic" {
+			// abort-before-store on the activation contracts: NOT part of the registered check. On the unchanged tree
+			// quiescence stores a bound after a child was aborted (the beta cut-off is tested before the abort poll), so
+			// this obligation has counterexamples that no input violating the property's statement reproduces.
+			s.Instances = append(s.Instances, absInstances(tier, true)...)
+		}
 		return s
 	}
 	Reg["C06"] = func(tier string, seed int64) *Spec {
 		s := &Spec{
-			Prop: "C06",
-			Pkgs: []string{"search", "uci"},
+			Prop:    "C06",
+			Pkgs:    []string{"search", "uci"},
+			Confirm: &ConfirmRun{"search", "VpV_C06_sweep", "VpV_C06_case"},
 			Bounds: []string{
 				"UCI `go depth N`: every 64-bit N >= 1 (strconv parsing replaced by 'any integer'); recording mock search",
 				"engine reuse: refresh from an arbitrary abort flag, 0..3 open move-store frames and 0..3 history-stack entries",
@@ -71,6 +97,60 @@ func init() {
 		s.Instances = append(s.Instances,
 			run.Instance{Pkg: "uci", Func: "VpH_C06_godepth", Opt: run.Options{Setup: stub}},
 			run.Instance{Pkg: "search", Func: "VpH_C06_refresh"})
+		s.Instances = append(s.Instances, absInstances(tier, false)...)
 		return s
+	}
+}
+
+// absInstances are the per-activation harnesses under the abstract-position contracts. With storeObs the persistent
+// stores are asserted to happen only while the abort flag is clear (C08); without, the restoration obligations
+// (C06) are what is asserted (the same executions produce both, each check claims its own).
+func absInstances(tier string, storeObs bool) []run.Instance {
+	k := 2
+	if tier == "thorough" {
+		k = 3
+	}
+	mk := func(fn string, stubRec bool) run.Instance {
+		setup := func(x *vexec.Exec, w *run.World) {
+			bT := w.Pkgs[run.ModPath+"/board"].Type("Board").Type()
+			sT := w.Pkgs[run.ModPath+"/search"].Type("Search").Type()
+			a := &absSearch{w: w, boardT: bT, searchT: sT, posIx: fieldIx(bT, "fullMoves"), stmIx: fieldIx(bT, "STM"), abortIx: fieldIx(sT, "aborted"), pvIx: fieldIx(sT, "pv")}
+			a.install(x, stubRec, fn != "VpH_C06_deepen", func(site string, g, aborted *sym.Term) {
+				if storeObs {
+					x.AddAssert("no-"+site+"-once-the-abort-flag-is-set", g, x.C.Not(aborted))
+				}
+			})
+		}
+		return run.Instance{Pkg: "search", Func: fn, Opt: run.Options{Abstract: true, Setup: setup, LoopBound: k, UnwindMode: "assume", PanicMode: "ignore", TimeoutMs: 300000}}
+	}
+	var out []run.Instance
+	for _, ply := range []int64{0, 1, 7, 62, 63} {
+		for _, fn := range []string{"VpH_C06_alphabeta", "VpH_C06_quiescence"} {
+			in := mk(fn, true)
+			in.Params = map[string]int64{"ply": ply}
+			out = append(out, in)
+		}
+	}
+	if !storeObs {
+		in := mk("VpH_C06_deepen", true)
+		in.Opt.LoopBound = 3
+		in.Opt.Setup = wrapTimeStubs(in.Opt.Setup)
+		out = append(out, in)
+	}
+	return out
+}
+
+// wrapTimeStubs adds the environment contracts iterativeDeepen needs: the clock returns arbitrary values.
+func wrapTimeStubs(prev func(x *vexec.Exec, w *run.World)) func(x *vexec.Exec, w *run.World) {
+	return func(x *vexec.Exec, w *run.World) {
+		prev(x, w)
+		n := 0
+		tT := w.Prog.ImportedPackage("time").Type("Time").Type()
+		x.Stub("time.Now", func(x *vexec.Exec, a []vexec.Val, g *sym.Term) vexec.Val { return x.Zero(tT) })
+		x.Stub("time.Since", func(x *vexec.Exec, a []vexec.Val, g *sym.Term) vexec.Val {
+			n++
+			return x.C.Var(64, "elapsed#"+string(rune('a'+n)))
+		})
+		x.Stub(run.ModPath+"/search.pvInfo", func(x *vexec.Exec, a []vexec.Val, g *sym.Term) vexec.Val { return &vexec.StringV{Const: "<pv>"} })
 	}
 }
